@@ -286,5 +286,12 @@ fn main() {
     let n = args.extra.get("to").and_then(|s| s.parse::<usize>().ok()).map(|t| t - from).unwrap_or(n);
     let rs = run_cases_isolated(n, args.threads, |i| dispatch(i + from, seed, tier));
     rep.add_all(rs);
+    // second stream: library-built circuits (real verifier / challenger / FRI circuits) judged by
+    // c02lib through the builder snapshot hook. Its syntactic "lib-carried" sub-oracle is not
+    // imported: it is only a sufficient condition and could false-alarm on a legitimate new
+    // optimisation (available for manual runs of c02lib).
+    let lib = import_emitted("c02lib", "C03", &args, |r| !r.key.contains("libcarry"));
+    rep.bump("library-circuit-cases", lib.len() as u64);
+    rep.add_all(lib);
     rep.finish(args.tier.pick(10_000, 200_000));
 }
